@@ -109,6 +109,12 @@ kf("KF-forward-move-block-attr", ["C06"],
    {"kind": ["forward-exception", "dangling"], "cursor_kind": "block", "exc": ["AttributeError"]},
    "seed guard/else2: lift_alloc(`t: f32` in the else-branch); forward(block else[2:3]) -> AttributeError 'For' object has no attribute 'orelse'",
    status="fixed", commit="2ba9c24a")
+kf("KF-helper-order-hashseed", ["C18"],
+   "the static C helpers (exo_floor_div, exo_floor_mod) were emitted in set-iteration order, so a library needing both compiled to different bytes under different PYTHONHASHSEED values (introduced together with the second helper by the floor-modulo fix 4b2bce40)",
+   "backend/LoopIR_compiler.compile_to_strings (`for v in needed_helpers`)",
+   {"kind": ["output-differs"], "session": "s_divmod_helpers", "axis": "hashseed"},
+   "session s_divmod_helpers: C text differs between PYTHONHASHSEED=0 and 1",
+   status="fixed", commit="93dce874")
 kf("KF-join-loops-prefix", ["C01"],
    "join_loops accepted loops whose bodies are [s1,s2] and [s1] (zip-based comparison)",
    "LoopIR.LoopIR_Compare.match_stmts",
